@@ -3,14 +3,16 @@
 SPECIFICATION TSpec
 CONSTANTS
   FrontEnd = "v2"
-  NCalls = 8
+  NCalls = 12
   UserPrefixes = {"a", "long", "root"}
   UserVerbs = {"register", "unregister"}
   Routes <- R0
+  LateRoutes = {"z"}
+  Stall = TRUE
   MaxConn = 2
   MaxClock = 100000
   ReplyKinds = {"r200", "r400", "r403", "r503", "nack", "silence", "garbage", "vfail"}
-  Allowed = {"UnregAnyData", "RegRaisesNoBody", "RegRaisesGarbage", "V2TwoReads"}
+  Allowed = {"UnregAnyData", "RegRaisesNoBody", "RegRaisesGarbage", "V2TwoReads", "V2GuardGivesUp"}
   Forced = {}
 INVARIANT TypeOK
 CONSTRAINT Mark
